@@ -268,28 +268,37 @@ func kindGuardedCall(x *Ctx, it Item) {
 		if !ok {
 			return true
 		}
-		for i := len(stack) - 2; i >= 0; i-- {
-			is, ok := stack[i].(*ast.IfStmt)
-			if !ok {
-				continue
-			}
-			// the call must be in the then-branch
-			inBody := false
-			for j := i + 1; j < len(stack); j++ {
-				if stack[j] == ast.Node(is.Body) {
-					inBody = true
+		ok = false
+		for i := len(stack) - 2; i >= 0 && !ok; i-- {
+			switch nd := stack[i].(type) {
+			case *ast.IfStmt:
+				// the call must be in the then-branch of `if <arg is positive> { ... }`
+				inBody := false
+				for j := i + 1; j < len(stack); j++ {
+					if stack[j] == ast.Node(nd.Body) {
+						inBody = true
+					}
+				}
+				if inBody && condSaysPositive(nd.Cond, arg.Name) {
+					ok = true
+				}
+			case *ast.BlockStmt:
+				// or an earlier statement of an enclosing block leaves when the argument is not positive:
+				// `if <arg is not positive> { ...; return ... }`
+				for _, st := range nd.List {
+					if i+1 < len(stack) && ast.Node(st) == stack[i+1] {
+						break
+					}
+					if is, isIf := st.(*ast.IfStmt); isIf && is.Else == nil && len(is.Body.List) > 0 && condSaysNotPositive(is.Cond, arg.Name) {
+						if _, isRet := is.Body.List[len(is.Body.List)-1].(*ast.ReturnStmt); isRet {
+							ok = true
+						}
+					}
 				}
 			}
-			be, ok := is.Cond.(*ast.BinaryExpr)
-			if !inBody || !ok || be.Op != token.GTR {
-				continue
-			}
-			l, ok1 := be.X.(*ast.Ident)
-			r, ok2 := be.Y.(*ast.BasicLit)
-			if ok1 && ok2 && l.Name == arg.Name && r.Value == "0" {
-				guarded++
-				break
-			}
+		}
+		if ok {
+			guarded++
 		}
 		return true
 	})
@@ -424,4 +433,130 @@ func kindErrPred(x *Ctx, it Item) {
 	}
 	x.Printf("(* %s *)\n", what)
 	x.Printf("Definition %s (is_net timeout temporary : bool) : bool :=\n  %s.\n\n", coqName(it), strings.Join(conds, "\n  || "))
+}
+
+// timerctxcheck: in function <func>, does the select clause that receives from <args.timer>
+// (e.g. `case <-timer.C:`) re-check the context (a call of <args.ctx>.Err()) before the loop
+// goes on?  -> Definition <coq> : bool.   (A timer and the end of the context can be ready
+// together -- always for a zero pause -- and select then picks at random.)
+func init() { kinds["timerctxcheck"] = kindTimerCtxCheck }
+
+func kindTimerCtxCheck(x *Ctx, it Item) {
+	what := it.File + ":" + it.Recv + "." + it.Func
+	fd := findFunc(x.File(it.File), it.Recv, it.Func)
+	if fd == nil {
+		fail("%s: function not found", what)
+	}
+	timer, _ := it.Args["timer"].(string)
+	ctxName, _ := it.Args["ctx"].(string)
+	found, checked := 0, 0
+	ast.Inspect(fd, func(n ast.Node) bool {
+		cc, ok := n.(*ast.CommClause)
+		if !ok || cc.Comm == nil {
+			return true
+		}
+		es, ok := cc.Comm.(*ast.ExprStmt)
+		if !ok {
+			return true
+		}
+		u, ok := es.X.(*ast.UnaryExpr)
+		if !ok || u.Op != token.ARROW {
+			return true
+		}
+		sel, ok := u.X.(*ast.SelectorExpr)
+		if !ok || sel.Sel.Name != "C" {
+			return true
+		}
+		if id, ok := sel.X.(*ast.Ident); !ok || id.Name != timer {
+			return true
+		}
+		found++
+		has := false
+		for _, st := range cc.Body {
+			ast.Inspect(st, func(m ast.Node) bool {
+				if call, ok := m.(*ast.CallExpr); ok {
+					if s2, ok := call.Fun.(*ast.SelectorExpr); ok && s2.Sel.Name == "Err" {
+						if id, ok := s2.X.(*ast.Ident); ok && id.Name == ctxName {
+							has = true
+						}
+					}
+				}
+				return true
+			})
+		}
+		if has {
+			checked++
+		}
+		return true
+	})
+	if found == 0 {
+		fail("%s: no `case <-%s.C:` clause", what, timer)
+	}
+	v := "false"
+	if checked == found {
+		v = "true"
+	}
+	x.Printf("(* %s: the `case <-%s.C:` clause re-checks %s.Err() *)\nDefinition %s : bool := %s.\n\n", what, timer, ctxName, coqName(it), v)
+}
+
+func isIdent(e ast.Expr, name string) bool {
+	if p, ok := e.(*ast.ParenExpr); ok {
+		return isIdent(p.X, name)
+	}
+	id, ok := e.(*ast.Ident)
+	return ok && id.Name == name
+}
+
+func isLit(e ast.Expr, v string) bool {
+	if p, ok := e.(*ast.ParenExpr); ok {
+		return isLit(p.X, v)
+	}
+	l, ok := e.(*ast.BasicLit)
+	return ok && l.Value == v
+}
+
+// condSaysPositive: the condition implies name > 0 (name > 0, name >= 1, 0 < name, 1 <= name,
+// or a conjunction with such a conjunct)
+func condSaysPositive(e ast.Expr, name string) bool {
+	switch x := e.(type) {
+	case *ast.ParenExpr:
+		return condSaysPositive(x.X, name)
+	case *ast.BinaryExpr:
+		switch x.Op {
+		case token.LAND:
+			return condSaysPositive(x.X, name) || condSaysPositive(x.Y, name)
+		case token.GTR:
+			return isIdent(x.X, name) && isLit(x.Y, "0")
+		case token.GEQ:
+			return isIdent(x.X, name) && isLit(x.Y, "1")
+		case token.LSS:
+			return isLit(x.X, "0") && isIdent(x.Y, name)
+		case token.LEQ:
+			return isLit(x.X, "1") && isIdent(x.Y, name)
+		}
+	}
+	return false
+}
+
+// condSaysNotPositive: the condition is implied by name <= 0 (name <= 0, name < 1, 0 >= name,
+// 1 > name, or a disjunction with such a disjunct)
+func condSaysNotPositive(e ast.Expr, name string) bool {
+	switch x := e.(type) {
+	case *ast.ParenExpr:
+		return condSaysNotPositive(x.X, name)
+	case *ast.BinaryExpr:
+		switch x.Op {
+		case token.LOR:
+			return condSaysNotPositive(x.X, name) || condSaysNotPositive(x.Y, name)
+		case token.LEQ:
+			return isIdent(x.X, name) && isLit(x.Y, "0")
+		case token.LSS:
+			return isIdent(x.X, name) && isLit(x.Y, "1")
+		case token.GEQ:
+			return isLit(x.X, "0") && isIdent(x.Y, name)
+		case token.GTR:
+			return isLit(x.X, "1") && isIdent(x.Y, name)
+		}
+	}
+	return false
 }
